@@ -93,7 +93,7 @@ FORMS = [  # (template over Q a b c m, python predicate)
 KINDS = ["require {e}", "require[0.5] {e}", "terminate when {e}", "record {e} as rec{i}", "require always {e}"]
 
 
-def requirement(t, tag, i, quantity, target, consts, diffs=(0.0,)):
+def requirement(t, tag, i, quantity, target, consts, scale, diffs=(0.0,)):
     """One statement about (relative heading | distance) of `target` w.r.t. the ego; `diffs` = heading
     differences that occur between cells of the field (bounds are placed around one of them)."""
     if quantity == "rh":
@@ -102,8 +102,8 @@ def requirement(t, tag, i, quantity, target, consts, diffs=(0.0,)):
         a, b, c, m = d - w, d + [0.3, 0.6, 1.5][t.draw(3, tag + "w2")], abs(d) + w, (d if t.draw(2, tag + "m") else 0.0)
     else:
         Q = ["(distance to {x})", "(distance from {x})", "(distance from ego to {x})"][t.weighted([3, 2, 1], tag + "q")]
-        a, w = [0.0, 2.0, 8.0, 15.0][t.draw(4, tag + "lo")], [12.0, 6.0, 25.0, 3.0][t.draw(4, tag + "w")]
-        b, c, m = a + w, [12.0, 6.0, 25.0][t.draw(3, tag + "c")], [0.0, 5.0, -3.0, 12.0][t.draw(4, tag + "m")]
+        a, w = scale * [0.0, 0.08, 0.3, 0.6][t.draw(4, tag + "lo")], scale * [0.5, 0.25, 1.0, 0.12][t.draw(4, tag + "w")]
+        b, c, m = a + w, scale * [0.5, 0.25, 1.0][t.draw(3, tag + "c")], scale * [0.0, 0.2, -0.12, 0.5][t.draw(4, tag + "m")]
     fi = t.draw(len(FORMS), tag + "form")
     tmpl, pred = FORMS[fi]
     if quantity == "rh" and "{m}" in tmpl and m:  # |Q - d| < w, written with either sign of the constant
@@ -178,7 +178,7 @@ def gen(t):
 
     if fam in (0, 1):
         S = 4.0 + 2 * t.draw(4, "S")
-        zc = [0.0, 0.0, 1.5][t.draw(3, "zc")] if fam == 0 else S / 4
+        zc = (1.5 if t.draw(16, "zc") == 15 else 0.0) if fam == 0 else S / 4
         ctxt, cref = region2d(t, "C.", (0.0, 0.0, zc), S) if fam == 0 else region3d(t, "C.", (0.0, 0.0, zc), S, S / 2)
         as_ws = t.draw(3, "as-workspace") != 2
         lines.append(f"cont = {ctxt}")
@@ -186,10 +186,10 @@ def gen(t):
             lines.append("workspace = Workspace(cont)")
         for i, nm in enumerate(names):
             o = new_obj(nm, cont=cref, cont_flat=fam == 0)
-            sizes(t, f"o{i}.", o, base=S / 6)
+            sizes(t, f"o{i}.", o, base=S / (6 if fam == 0 else 8))
             facing(t, f"o{i}.", o)
             if t.draw(3, f"o{i}.own-base"):  # a base region different from the container
-                c = (0.3 * S * zig(t.draw(5, f"o{i}.bx")), 0.3 * S * zig(t.draw(3, f"o{i}.by")), zc if fam or t.draw(3, f"o{i}.bz") < 2 else 1.0 - zc / 1.5)
+                c = (0.3 * S * zig(t.draw(5, f"o{i}.bx")), 0.3 * S * zig(t.draw(3, f"o{i}.by")), zc if fam or t.draw(16, f"o{i}.bz") < 15 else 1.0 - zc / 1.5)
                 btxt, bref = (region2d(t, f"B{i}.", c, S * (0.75 + 0.25 * t.draw(4, f"o{i}.bs"))) if fam == 0
                               else region3d(t, f"B{i}.", c, S * (0.75 + 0.25 * t.draw(4, f"o{i}.bs")), S / 2 * (1 + t.draw(2, f"o{i}.bh"))))
                 lines.append(f"base{i} = {btxt}")
@@ -215,7 +215,7 @@ def gen(t):
         bref = rr.PolyRef([np.array(r, float) for r, _ in P.cells], (0.0, 0.0, 0.0), kind="polygon", desc={"cells": n, "gap": gap})
         for i, nm in enumerate(names):
             o = new_obj(nm, base=bref, spec=["in union"])
-            k = t.weighted([5, 1, 1], f"o{i}.align")
+            k = t.weighted([8, 1, 1], f"o{i}.align")
             if k == 0:
                 o.field = True
                 if not oriented or t.draw(2, f"o{i}.facing-too"):
@@ -224,7 +224,7 @@ def gen(t):
                 o.spec.append(f"facing Range(-0.2, {num(0.1 + 0.1 * t.draw(3, f'o{i}.r'))}) relative to vf")
             else:
                 o.spec.append(f"facing Range({num(ANG[t.draw(5, f'o{i}.f0')] - 0.5)}, {num(ANG[t.draw(5, f'o{i}.f0b')] + 3.0)})")
-            if i and (v := t.weighted([3, 1, 1], f"o{i}.vis")):
+            if i and (v := t.weighted([2, 1, 1], f"o{i}.vis")):
                 o.spec.append(["with requireVisible True", "visible from ego"][v - 1])
                 o.require_visible, o.visible_from = v == 1, ("ego" if v == 2 else None)
             P.objs.append(o)
@@ -248,7 +248,7 @@ def gen(t):
             lines.append(f"ereg = {etxt}")
             ego.spec.append("in ereg")
         else:
-            c = (0.2 * W * zig(t.draw(5, "ego-x")), 0.2 * W * zig(t.draw(3, "ego-y")), 0.0 if flat else 3.0)
+            c = (0.12 * W * zig(t.draw(5, "ego-x")), 0.12 * W * zig(t.draw(3, "ego-y")), 0.0 if flat else 3.0)
             ego.spec.append(f"at {vec(c)}")
         facing(t, "ego.", ego, tilt=False)
         ego.spec.append(f"with visibleDistance {num([5, 3, 8, 0.6, 1.5][t.weighted([4, 4, 2, 1, 2], 'vd')])}")
@@ -260,10 +260,7 @@ def gen(t):
         P.objs.append(ego)
         for i, nm in enumerate(names[1:], 1):
             o = new_obj(nm)
-            if t.draw(5, f"o{i}.spheroid") == 4:
-                o.spec.append("with shape SpheroidShape(dimensions=(2, 2, 2))")
-            else:
-                sizes(t, f"o{i}.", o, p=2)
+            sizes(t, f"o{i}.", o, p=2)  # boxes only: ray casting against an icosphere costs ~0.2 s per visibility check
             place(t, f"o{i}.", o, "workspace" if flat else "wreg", wref, flat)
             v = 1 if cyclic and i == 1 else t.weighted([1, 4, 2, 2, 1, 1], f"o{i}.vis")
             src = names[t.draw(i, f"o{i}.from")]
@@ -276,15 +273,15 @@ def gen(t):
         if cyclic:  # o1 must exist before the ego refers to it
             P.objs[0], P.objs[1] = P.objs[1], P.objs[0]
 
-    for i, o in enumerate(P.objs):
-        o.spec += [f"with cid {i}"] + ([] if collide else ["with allowCollisions True"])
+    for i, o in enumerate(P.objs):  # (1 ray per degree instead of 5: a visibility check costs 10 ms instead of 200 ms)
+        o.spec += [f"with cid {i}"] + ([] if collide else ["with allowCollisions True"]) + (["with viewRayDensity 1"] if fam >= 2 else [])
         lines.append(f"{o.name} = new Object " + ", ".join(o.spec))
     if fam == 2:  # a relative-heading bound, usually with something that bounds the distance, then anything
         diffs = sorted({round(norm_angle(h2 - h1), 6) for _, h1 in P.cells for _, h2 in P.cells}, key=lambda d: (abs(d), d))
         for i in range(1 + t.weighted([2, 3, 1], "nreq")):
             q = "rh" if i == 0 or t.draw(3, f"q{i}.quantity") == 2 else "dist"
-            P.reqs.append(requirement(t, f"q{i}.", i, q, names[1 if i < 2 else 1 + t.draw(nobj - 1, f"q{i}.target")], consts, diffs))
+            P.reqs.append(requirement(t, f"q{i}.", i, q, names[1 if i < 2 else 1 + t.draw(nobj - 1, f"q{i}.target")], consts, 24.0, diffs))
     elif nobj > 1 and t.draw(2, "nreq"):
-        P.reqs.append(requirement(t, "q0.", 0, "dist", names[1 + t.draw(nobj - 1, "q0.target")], consts))
+        P.reqs.append(requirement(t, "q0.", 0, "dist", names[1 + t.draw(nobj - 1, "q0.target")], consts, S if fam < 2 else W))
     P.text = HEADER + "\n".join(consts + lines + [r.text for r in P.reqs]) + "\n"
     return P
